@@ -46,7 +46,10 @@ SEQ_FIXED = [
 RAIN = "total = 0\nfor report in reports:\n    total = total + report['Data']['Rain']\nprint(total)\n"
 PAY = "total = 0\nfor r in rs:\n    total = total + (r['a'] + bonus * 2)\nprint(total)\n"
 # (program, outer pattern, its expectation, the placeholder to continue below, inner pattern, its expectation)
+TWO = "a = 1\nb = 2\nprint(a + b)\n"
 CONT_FIXED = [
+    # two matches of the outer pattern (_v_ = a / _v_ = b) bind __e__ to the SAME expression a + b
+    (TWO, "_v_ = ___\nprint(__e__)\n", {'names': {}, 'exps': {'__e__': 'a + b'}}, '__e__', "___ + ___\n", {'names': {}, 'exps': {}}),
     (RAIN, "for _r_ in ___:\n    total = total + __expr__\n", {'names': {'_r_': 'report'}, 'exps': {'__expr__': "report['Data']['Rain']"}},
      '__expr__', "_r_['Data'][__expr__]\n", {'names': {'_r_': 'report'}, 'exps': {'__expr__': "'Rain'"}}),
     (PAY, "for _r_ in ___:\n    total = total + __expr__\n", {'names': {'_r_': 'r'}, 'exps': {'__expr__': "r['a'] + bonus * 2"}},
@@ -186,6 +189,16 @@ def correspondence(ctx):
             ctx.case(('continued', case['program'], cont['outer'], cont['inner']), nontrivial=True,
                      sample={'program': case['program'], 'outer': cont['outer'], 'inner': cont['inner'], 'expected': cont['inner_exp'],
                              'below': one.get('below')} if len(case['program']) < 200 else None)
+            for pm in one.get('per_match', []):
+                ctx.count('continued-searches:per-match')
+                if isinstance(pm['got'], str) or [pm['identifier']] not in pm['got']:
+                    ctx.violation('continued-search-wrong-binding',
+                                  {'program': case['program'], 'outer_pattern': cont['outer'], 'continue_below': cont['ph'], 'match_index': pm['match'],
+                                   'inner_pattern': pm['inner'], 'expected': {pm['placeholder']: pm['identifier']}, 'observed': pm['got'],
+                                   'why': 'match #%d of the outer pattern binds %s to %s; continuing below what it bound %s to, with that expression as '
+                                          'pattern (%s in place of %s), no match binds %s to %s: %s'
+                                          % (pm['match'], pm['placeholder'], pm['identifier'], cont['ph'], pm['placeholder'], pm['identifier'],
+                                             pm['placeholder'], pm['identifier'], pm['got'])})
             iexp = cont['inner_exp']
             for route in ('below', 'below-again', 'use_previous'):
                 got = one.get(route, {})
